@@ -181,7 +181,7 @@ fn pipeline(nodes: Vec<ParserNode>, stage: &str) -> Result<Cfg, Box<CfgError>> {
 }
 
 /// the exits chosen by the function traversal (oracle for the model)
-fn picks_of(cfg: &Cfg) -> String {
+pub fn picks_of(cfg: &Cfg) -> String {
     let mut funcs: Vec<_> = cfg.functions().values().cloned().collect();
     funcs.sort_by_key(|f| idx(cfg, &f.entry()));
     funcs.dedup_by(|a, b| Rc::ptr_eq(a, b));
